@@ -8,6 +8,8 @@ CONSTANTS
   GeCmp = TRUE
   AwaitStop = TRUE
   NotifyPop = TRUE
+  ReleaseOnEnd = TRUE
+  Faults = TRUE
   MaxOps = 4
   MaxCancel = 1
   Depth = 0
